@@ -18,6 +18,16 @@ def _mask(w):
     return (1 << w) - 1
 
 
+def _is_object_view(e):
+    """constant index / slice (chains) applied to a port, signal or variable: a view that aliases the object"""
+    if e[0] not in ("idx", "slice"):
+        return False
+    base = e[1]
+    while base[0] in ("idx", "slice"):
+        base = base[1]
+    return base[0] in ("in", "sig", "var")
+
+
 class Machine:
     def __init__(self, spec):
         self.spec = spec
@@ -317,9 +327,14 @@ class Machine:
                 # the tracer can fold: the property does not determine it
                 self.fresh = "ambiguous"
         elif k == "bind":
-            env[s["bind"]] = self.ev(s["e"], env)
-            if s["e"][0] not in ("in", "sig", "var", "const", "bconst", "loc"):
-                self.fresh = False  # computing an intermediate value is an action of the process
+            if _is_object_view(s["e"]):
+                # a constant index/slice (chain) of an object is a view of that object, not a value: the name aliases the
+                # storage and reads its current content whenever it is used; nothing is computed
+                env[s["bind"]] = (lambda e=s["e"], env=env: self.ev(e, env))
+            else:
+                env[s["bind"]] = self.ev(s["e"], env)
+                if s["e"][0] not in ("in", "sig", "var", "const", "bconst", "loc"):
+                    self.fresh = False  # computing an intermediate value is an action of the process
         elif k == "always":
             e = s["e"]
             env[s["bind"]] = (lambda e=e, env=env: self.ev(e, env))
@@ -404,13 +419,13 @@ class Machine:
             # current value whenever it uses the parameter); computed arguments are values
             senv = {}
             for p, a in zip(sub["params"], s["args"]):
-                if a[0] in ("in", "sig", "var"):
+                if a[0] in ("in", "sig", "var") or _is_object_view(a):
                     senv[p] = (lambda a=a, env=env: self.ev(a, env))
                 elif a[0] == "loc" and callable(env.get(a[1])):
                     senv[p] = env[a[1]]
                 else:
                     senv[p] = self.ev(a, env)
-            if any(a[0] not in ("in", "sig", "var", "const", "loc") for a in s["args"]):
+            if any(a[0] not in ("in", "sig", "var", "const", "loc") and not _is_object_view(a) for a in s["args"]):
                 self.fresh = False
             if self.fresh == "ambiguous":
                 raise Unspecified("first action of the process is not determined (foldable helper call before a sub-coroutine)")
